@@ -103,7 +103,7 @@ func (m *c13mem) expect(a uint32) byte {
 }
 
 func C13(r *vf.Run) {
-	r.Rule = "histories of 1-40 Attach calls over overlapping/adjacent/nested/re-attached aligned ranges (from one block to a dozen whole banks, with small overlays inside wide ranges) and misaligned ones, with instrumented fake memories and real memory.RAM/ROM at non-zero offsets; routing of every block in and next to each range, and of the same offsets in neighbouring banks and pages, probed through EaRead/EaWrite against a shadow map, then unprobed mixed sequences of EaRead/EaWrite/EaRead24_wrap with block locality; EaDump over ranges with every start residue and lengths {1,2,15,16,17,31,32,33,4096} across memory/memory and memory/hole boundaries with sentinel-filled output; plus long-lived buses receiving 67,000+ successful Attach calls each with routing checked after every call; a cell is (overlap shape), (misaligned residue) or (dump: start residue, length class, boundary kind)"
+	r.Rule = "histories of 1-40 Attach calls over overlapping/adjacent/nested/re-attached aligned ranges (from one block to a dozen whole banks, with small overlays inside wide ranges) and misaligned ones, with instrumented fake memories and real memory.RAM/ROM at non-zero offsets; routing of every block in and next to each range, and of the same offsets in neighbouring banks and pages, probed through EaRead/EaWrite against a shadow map, then unprobed mixed sequences of EaRead/EaWrite/EaRead24_wrap with block locality; EaDump over ranges with every start residue and lengths {1,2,15,16,17,31,32,33,4096} across memory/memory and memory/hole boundaries with sentinel-filled output, every fourth dump over devices that dump the same bus into their own buffer when read; plus long-lived buses receiving 67,000+ successful Attach calls each with routing checked after every call; a cell is (overlap shape), (misaligned residue) or (dump: start residue, length class, boundary kind)"
 	r.Assume = []string{"Attach ranges beyond 24 bits or with start > end are outside 'successful Attach calls over aligned ranges'"}
 
 	type probeRes struct {
